@@ -4,6 +4,7 @@ CONSTANTS
   MaxCycles = 3
   ExportScripts = FALSE
   EnableFaults = TRUE
+  EnableRestart = FALSE
   SrcVals = {0, 255}
   Dts = {2, 5}
 VIEW View
